@@ -344,13 +344,13 @@ func isBinary(op string) bool {
 func (n *Node) write(b *strings.Builder, full bool) {
 	switch {
 	case isBinary(n.Op):
-		if full && n.Op != "|" {
+		if full {
 			b.WriteString("(")
 		}
 		n.Kids[0].write(b, full)
 		b.WriteString(" " + n.Op + " ")
 		n.Kids[1].write(b, full)
-		if full && n.Op != "|" {
+		if full {
 			b.WriteString(")")
 		}
 	case n.Op == "neg":
